@@ -93,6 +93,14 @@ def ensure_native(verbose=False):
         shutil.rmtree(src, ignore_errors=True)
         shutil.copytree(os.path.join(REPO, "rust"), src,
                         ignore=shutil.ignore_patterns("target"))
+        # cargo decides freshness by comparing source mtimes with the last build in the shared
+        # target dir; sources restored by git/rsync/patch can carry OLDER mtimes than the
+        # previous (different) build and would be taken for unchanged.  Stamp every source
+        # file "now" so this crate is always recompiled from exactly these bytes (~2-6 s).
+        now = time.time()
+        for dp, _dns, fns in os.walk(src):
+            for fn in fns:
+                os.utime(os.path.join(dp, fn), (now, now))
         env = dict(os.environ)
         env.update(CARGO_TARGET_DIR=os.path.join(CACHE, "rust-target"),
                    PYO3_PYTHON=PY, CARGO_NET_OFFLINE="true")
